@@ -110,7 +110,80 @@ func isSentinelReply(r *parsed) bool {
 	return r.l4 == "udp" && (int(r.udp.DstPort) == sentinelSP || int(r.udp.SrcPort) == sentinelSP)
 }
 
+// epochMarker: in mode srvgrpc the six timestamp / sequence-number bytes of the authenticator
+// (covered by the MAC, otherwise free) say how the request relates to the DRKey epochs, so that
+// an op line is self-contained and replays at any later time:
+// [6] = 0xE9, [7] bit 0 = wait for the next epoch change before sending, [8] = 128 + k: the MAC
+// is computed under the key of epoch (epoch at send time + k). The MAC bytes and the mac= oracle
+// of the op line are those of the moment the op was generated (equal iff k = 0 — all the model
+// looks at); they are recomputed for the epoch the datagram is actually sent in.
+func epochMarker(p *pkt) (wait bool, k int64, ok bool) {
+	if p.mode != "srvgrpc" || !p.hasAu || len(p.auth) != 28 || p.auth[6] != 0xE9 {
+		return false, 0, false
+	}
+	return p.auth[7]&1 != 0, int64(p.auth[8]) - 128, true
+}
+
+func setEpochMarker(p *pkt, wait bool, k int64) {
+	p.auth[6], p.auth[7], p.auth[8] = 0xE9, 0, byte(128+k)
+	if wait {
+		p.auth[7] = 1
+	}
+}
+
+// settleInEpoch: sleep until the wall clock is at least 350 ms past an epoch change and at
+// least 1.2 s before the next (the machine is shared; the listener stamps the datagram a little
+// after we send it).
+func settleInEpoch(next bool) {
+	for {
+		now := time.Now()
+		into := time.Duration(now.UnixNano() % int64(epochLen))
+		if next {
+			time.Sleep(epochLen - into + 400*time.Millisecond)
+			next = false
+			continue
+		}
+		if into < 350*time.Millisecond {
+			time.Sleep(400*time.Millisecond - into)
+			continue
+		}
+		if epochLen-into < 1200*time.Millisecond {
+			time.Sleep(epochLen - into + 400*time.Millisecond)
+			continue
+		}
+		return
+	}
+}
+
 func handle(p *pkt) string {
+	if p.mode != "srvgrpc" {
+		return handleStable(p)
+	}
+	wait, k, marked := epochMarker(p)
+	for attempt := 0; attempt < 4; attempt++ {
+		settleInEpoch(wait && attempt == 0)
+		p.kep = epochOf(time.Now())
+		if marked {
+			key, err := hostHostKeyEpoch(p.dia, p.sia, p.da, p.sa, p.kep+k)
+			if err == nil {
+				if m, err := p.macUnder(key); err == nil {
+					copy(p.auth[12:], m)
+				}
+			}
+			if m, err := p.serverMAC(); err == nil {
+				p.mac = lib.Hex(m)
+			}
+		}
+		ans := handleStable(p)
+		if epochOf(time.Now()) == p.kep || strings.HasPrefix(ans, "sandbox") || strings.HasPrefix(ans, "bad-op") {
+			return ans
+		}
+	}
+	last.kind = "sandbox"
+	return "sandbox epoch-unstable"
+}
+
+func handleStable(p *pkt) string {
 	last = obs{}
 	if sandbox != "" {
 		last.kind = "sandbox"
